@@ -19,16 +19,16 @@ if [ $need_build = 1 ]; then
   (cd "$HERE/gaeacheck" && go build -o "$BIN" .) || { echo "VIOLATION property=$PROP replay=$HERE/replay/build-failed"; exit 1; }
 fi
 if [ "$PROP" = "--replay" ]; then
-  # replay: re-run the property of the stored obligation and show that obligation
+  # replay: re-analyse the property of the stored obligation on the current tree and show that obligation's verdict
   F="${2:?replay file}"
   P=$(python3 -c "import json,sys;print(json.load(open(sys.argv[1]))['property'])" "$F")
-  K=$(python3 -c "import json,sys;o=json.load(open(sys.argv[1]))['obligation'];print(o['rule']+' '+o['func']+' :: '+o['construct'])" "$F")
-  "$BIN" -prop "$P" -tier quick -repo "$REPO" -verif "$HERE" -no-evidence | grep -F -A12 -- "$K"
+  K=$(python3 -c "import json,sys;o=json.load(open(sys.argv[1]))['obligation'];print(o['rule']+' '*max(1,11-len(o['rule']))+o['func']+' :: '+o['construct'])" "$F")
+  OUT=$("$BIN" -prop "$P" -tier quick -repo "$REPO" -verif "$HERE" -no-evidence)
+  if echo "$OUT" | grep -F -- "$K" ; then
+    echo "$OUT" | grep -F -A12 "FAILED-OBLIGATION" | grep -F -A12 -- "$(python3 -c "import json,sys;o=json.load(open(sys.argv[1]))['obligation'];print('['+o['construct']+']')" "$F")" || true
+  else
+    echo "the stored obligation ($K) does not exist on the current tree (the construct is gone or renamed)"
+  fi
   exit 0
-fi
-if [ "$TIER" = "thorough" ] && [ -x "$HERE/selftest.sh" ]; then
-  "$BIN" -prop "$PROP" -tier thorough -repo "$REPO" -verif "$HERE"; rc=$?
-  [ $rc -ne 0 ] && exit $rc
-  "$HERE/selftest.sh" "$PROP"; exit $?
 fi
 exec "$BIN" -prop "$PROP" -tier "$TIER" -repo "$REPO" -verif "$HERE"
